@@ -1621,7 +1621,14 @@ int main(int argc, char **argv) {
       int fd = open(log.c_str(), O_WRONLY | O_CREAT | O_TRUNC, 0644);
       dup2(fd, 1); dup2(fd, 2);
       g_case = c.id; g_op = 0;
-      alarm(timeout);
+      // the time budget grows with the work of the case (bytes of the dictionary x number of operations):
+      // XBW under ASan needs ~0.4 s to extract three strings of 16 KiB, seventy such operations are slow, not hung
+      double bytes = 0;
+      for (auto &x : c.strs) bytes += (double)x.size();
+      double budget = timeout * (1.0 + bytes * (double)c.ops.size() / 500000.0);
+      double cap = timeout > 600 ? timeout : 600;
+      if (budget > cap) budget = cap;
+      alarm((unsigned)budget);
       runCase(c);
       fflush(OUT);
       _exit(0);
